@@ -40,9 +40,9 @@ from uberjob.stores import LiteralSource, ModifiedTimeSource, PathSource
 
 GEN = ["TextCodec", "FileStore"]
 ASSUMPTIONS = [
-    "PARTIAL: pickle (dump/load), json on floats, and text codecs other than utf-8 / utf-16 / latin-1 round-trip on their domains - "
-    "hypotheses of the Lean theorems, validated by the sampled runs only (json on None/bool/int/str/list/dict and the three codecs are "
-    "modelled and proved; CPython's recursion limit and its 4300-digit int<->str limit are outside the model)",
+    "PARTIAL: pickle (dump/load), float(repr(x)) == x, and text codecs other than utf-8 / utf-16 / latin-1 round-trip on their domains - "
+    "hypotheses of the Lean theorems, validated by the sampled runs only (json on every JSON value - floats as the text that denotes them - "
+    "and the three codecs are modelled and proved; CPython's recursion limit and its 4300-digit int<->str limit are outside the model)",
     "os.linesep == '\\n' (POSIX); a monotone file-system clock; getmtime reflects the last completed content change",
     "JSON domain: None | bool | int | finite float | str without a high surrogate immediately followed by a low one | "
     "list | dict with str keys; equality is type-strict (json reads an escaped surrogate PAIR back as one astral character)",
